@@ -237,12 +237,15 @@ def run(chk, replay=None):
                 chk.spec_drift(f"adapter expressions not understood: {e}")
             rid += 1
     chk.count(len(records))
-    tv = trace.validate("Trace_Kin", records, timeout=1800)
-    chk.add_tlc("trace_kin", tv.res, traces=len(records))
-    chk.part("trace_kin", topology_records=n_top, adapter_records=len(records) - n_top, stats=tv.stats)
-    chk.sample({"record": {k: records[min(5, len(records) - 1)][k] for k in ("kind", "tree", "angles") if k in records[min(5, len(records) - 1)]}})
-    if tv.stats.get("angles-checked", 0) == 0:
-        raise Machinery("vacuous: no angle was compared")
+    if records:
+        tv = trace.validate("Trace_Kin", records, timeout=1800)
+        chk.add_tlc("trace_kin", tv.res, traces=len(records))
+        chk.part("trace_kin", topology_records=n_top, adapter_records=len(records) - n_top, stats=tv.stats)
+        chk.sample({"record": {k: records[min(5, len(records) - 1)][k] for k in ("kind", "tree", "angles") if k in records[min(5, len(records) - 1)]}})
+    else:
+        # every expression shape is unknown to the projection: the verdict comes from the numeric law alone
+        tv = trace.TraceVerdict(res=None)
+    vacuous = tv.stats.get("angles-checked", 0) == 0
     if tv.stats.get("both-decay-flip", 0):
         chk.note(f"{tv.stats['both-decay-flip']} angle definitions at nodes whose two children both decay are filled with the helicity child (edge-numbering dependent; tolerated as convention for a single topology, rejected as clash inside one adapter)")
     byid = {r["id"]: r for r in records}
@@ -261,13 +264,17 @@ def run(chk, replay=None):
     for t, exprs, label in drift_jobs + numeric_jobs:
         w, fams = numeric_check(chk, t, exprs, rng, 64, label)
         worst = max(worst, w)
+    if vacuous and not chk.violations and not drift_jobs:
+        raise Machinery("vacuous: no angle was compared")
     chk.part("numeric", topologies=len(numeric_jobs), worst_abs_diff=worst, families=["generic", "massless", "near-threshold", "boosted"], cse=[True, False])
 
     # 5. binding demonstration: a corrupted projection must be rejected
     if tier == "thorough" or True:
         import copy
 
-        bad = copy.deepcopy(records[3])
+        cand = [r for r in records if r["kind"] == "topology" and r["angles"]]
+        bad = copy.deepcopy(cand[min(3, len(cand) - 1)]) if cand else None
+    if bad is not None and not chk.violations:
         bad["id"] = 999999
         if bad["angles"]:
             bad["angles"][0]["target"] = [bad["angles"][0]["target"][0] ^ 1] if len(bad["angles"][0]["target"]) == 1 else bad["angles"][0]["target"][:-1]
